@@ -212,76 +212,169 @@ def run_queries(cls, obj, model, seed, nxt, root_array, cx=False):
     out = []
     ush = unit_data(cls, 0, 0).shape
     mshape = model.shape[:model.ndim - len(ush)]
+    def build(obj, w):
+        w.obj("self", obj)
+        w.arr("constructor-array", root_array)
+        other_arr = w.arr("argument-array", fresh_data(cls, mshape, nxt, seed))
+        calls = []
+        MODELS = ["projective", "klein", "poincare", "halfspace", "hyperboloid"]
+        if cls == "H.Polygon":
+            other = w.obj("argument", H.Polygon(other_arr))
+            pts_arr = w.arr("argument-points-array", np.array(other_arr))
+            arg_pts = w.obj("argument-points", H.Point(pts_arr))         # the very object handed to the queries
+            calls += [("coords-%s" % m, (lambda m=m: obj.coords(m))) for m in MODELS]
+            calls += [("get_vertices.coords-%s" % m, (lambda m=m: obj.get_vertices().coords(m))) for m in MODELS]
+            calls += [("get_edges", lambda: obj.get_edges()), ("get_vertices", lambda: obj.get_vertices()),
+                      ("get_edges.ideal_endpoint_coords", lambda: [obj.get_edges().ideal_endpoint_coords(m) for m in ("klein", "poincare", "halfspace")]),
+                      ("get_edges.circle_parameters", lambda: None if cx else [obj.get_edges().circle_parameters(model=m) for m in ("poincare", "halfspace")]),
+                      ("distance", lambda: obj.get_vertices().distance(arg_pts)),
+                      ("distance-from-argument", lambda: arg_pts.distance(obj.get_vertices())),
+                      ("origin_to", lambda: obj.get_vertices().origin_to()),
+                      ("origin_to-argument", lambda: arg_pts.origin_to()),
+                      ("unit_tangent_towards", lambda: obj.get_vertices().unit_tangent_towards(arg_pts)),
+                      ("unit_tangent_towards-from-argument", lambda: arg_pts.unit_tangent_towards(obj.get_vertices())),
+                      ("in_standard_chart", lambda: obj.in_standard_chart())]
+        elif cls == "H.Segment":
+            other = w.obj("argument", H.Segment(other_arr))
+            pts_arr = w.arr("argument-points-array", np.array(other_arr[..., 1, :]))
+            arg_pts = w.obj("argument-points", H.Point(pts_arr))
+            calls += [("coords-%s" % m, (lambda m=m: obj.coords(m))) for m in MODELS]
+            calls += [("endpoint_coords-%s" % m, (lambda m=m: obj.endpoint_coords(m))) for m in MODELS]
+            calls += [("ideal_endpoint_coords-%s" % m, (lambda m=m: obj.ideal_endpoint_coords(m))) for m in ("klein", "poincare", "halfspace", "projective")]
+            if not cx:
+                calls += [("circle_parameters-%s" % m, (lambda m=m: (obj.circle_parameters(model=m), obj.circle_parameters(model=m, degrees=False)))) for m in ("poincare", "halfspace")]
+            calls += [("sphere_parameters-%s" % m, (lambda m=m: obj.sphere_parameters(model=m))) for m in ("poincare", "halfspace")]
+            calls += [("geodesic", lambda: obj.geodesic()), ("get_endpoints", lambda: obj.get_endpoints()),
+                      ("get_end_pair", lambda: obj.get_end_pair()),
+                      ("distance", lambda: obj.get_end_pair(as_points=True)[0].distance(obj.get_end_pair(as_points=True)[1])),
+                      ("distance-to-argument", lambda: obj.get_end_pair(as_points=True)[0].distance(arg_pts)),
+                      ("distance-from-argument", lambda: arg_pts.distance(obj.get_end_pair(as_points=True)[1])),
+                      ("origin_to", lambda: obj.get_end_pair(as_points=True)[0].origin_to()),
+                      ("origin_to-argument", lambda: arg_pts.origin_to()),
+                      ("unit_tangent_towards", lambda: obj.get_end_pair(as_points=True)[0].unit_tangent_towards(arg_pts)),
+                      ("unit_tangent_towards-from-argument", lambda: arg_pts.unit_tangent_towards(obj.get_end_pair(as_points=True)[0]))]
+        elif cls == "H.TangentVector":
+            other = w.obj("argument", H.TangentVector(other_arr))
+            calls += [("coords-projective", lambda: obj.coords("projective")),
+                      ("point-vector", lambda: (np.array(obj.point), np.array(obj.vector))),
+                      ("origin_to", lambda: (obj.origin_to(), obj.origin_to(force_oriented=False))),
+                      ("isometry_to", lambda: obj.isometry_to(other)),
+                      ("isometry_from", lambda: other.isometry_to(obj)),
+                      ("normalized", lambda: obj.normalized()),
+                      ("angle", lambda: obj.angle(other)),
+                      ("point_along", lambda: obj.point_along(0.5)),
+                      ("get_end_pair", lambda: obj.get_end_pair(as_points=True))]
+        else:
+            other = w.obj("argument", P.Polygon(other_arr))
+            calls += [("get_edges", lambda: obj.get_edges()), ("get_vertices", lambda: obj.get_vertices()),
+                      ("affine_coords", lambda: obj.affine_coords()), ("projective_coords", lambda: obj.projective_coords()),
+                      ("affine_coords-chart1", lambda: obj.affine_coords(chart_index=1)),
+                      ("in_standard_chart", lambda: obj.in_standard_chart()),
+                      ("get_edges.endpoint_affine_coords", lambda: obj.get_edges().endpoint_affine_coords()),
+                      ("in_affine_chart", lambda: obj.in_affine_chart(0))]
+        return calls
+
     w = Watch()
-    w.obj("self", obj)
-    w.arr("constructor-array", root_array)
-    other_arr = w.arr("argument-array", fresh_data(cls, mshape, nxt, seed))
-    calls = []
-    MODELS = ["projective", "klein", "poincare", "halfspace", "hyperboloid"]
-    if cls == "H.Polygon":
-        other = w.obj("argument", H.Polygon(other_arr))
-        pts_arr = w.arr("argument-points-array", np.array(other_arr))
-        arg_pts = w.obj("argument-points", H.Point(pts_arr))         # the very object handed to the queries
-        calls += [("coords-%s" % m, (lambda m=m: obj.coords(m))) for m in MODELS]
-        calls += [("get_vertices.coords-%s" % m, (lambda m=m: obj.get_vertices().coords(m))) for m in MODELS]
-        calls += [("get_edges", lambda: obj.get_edges()), ("get_vertices", lambda: obj.get_vertices()),
-                  ("get_edges.ideal_endpoint_coords", lambda: [obj.get_edges().ideal_endpoint_coords(m) for m in ("klein", "poincare", "halfspace")]),
-                  ("get_edges.circle_parameters", lambda: None if cx else [obj.get_edges().circle_parameters(model=m) for m in ("poincare", "halfspace")]),
-                  ("distance", lambda: obj.get_vertices().distance(arg_pts)),
-                  ("distance-from-argument", lambda: arg_pts.distance(obj.get_vertices())),
-                  ("origin_to", lambda: obj.get_vertices().origin_to()),
-                  ("origin_to-argument", lambda: arg_pts.origin_to()),
-                  ("unit_tangent_towards", lambda: obj.get_vertices().unit_tangent_towards(arg_pts)),
-                  ("unit_tangent_towards-from-argument", lambda: arg_pts.unit_tangent_towards(obj.get_vertices())),
-                  ("in_standard_chart", lambda: obj.in_standard_chart())]
-    elif cls == "H.Segment":
-        other = w.obj("argument", H.Segment(other_arr))
-        pts_arr = w.arr("argument-points-array", np.array(other_arr[..., 1, :]))
-        arg_pts = w.obj("argument-points", H.Point(pts_arr))
-        calls += [("coords-%s" % m, (lambda m=m: obj.coords(m))) for m in MODELS]
-        calls += [("endpoint_coords-%s" % m, (lambda m=m: obj.endpoint_coords(m))) for m in MODELS]
-        calls += [("ideal_endpoint_coords-%s" % m, (lambda m=m: obj.ideal_endpoint_coords(m))) for m in ("klein", "poincare", "halfspace", "projective")]
-        if not cx:
-            calls += [("circle_parameters-%s" % m, (lambda m=m: (obj.circle_parameters(model=m), obj.circle_parameters(model=m, degrees=False)))) for m in ("poincare", "halfspace")]
-        calls += [("sphere_parameters-%s" % m, (lambda m=m: obj.sphere_parameters(model=m))) for m in ("poincare", "halfspace")]
-        calls += [("geodesic", lambda: obj.geodesic()), ("get_endpoints", lambda: obj.get_endpoints()),
-                  ("get_end_pair", lambda: obj.get_end_pair()),
-                  ("distance", lambda: obj.get_end_pair(as_points=True)[0].distance(obj.get_end_pair(as_points=True)[1])),
-                  ("distance-to-argument", lambda: obj.get_end_pair(as_points=True)[0].distance(arg_pts)),
-                  ("distance-from-argument", lambda: arg_pts.distance(obj.get_end_pair(as_points=True)[1])),
-                  ("origin_to", lambda: obj.get_end_pair(as_points=True)[0].origin_to()),
-                  ("origin_to-argument", lambda: arg_pts.origin_to()),
-                  ("unit_tangent_towards", lambda: obj.get_end_pair(as_points=True)[0].unit_tangent_towards(arg_pts)),
-                  ("unit_tangent_towards-from-argument", lambda: arg_pts.unit_tangent_towards(obj.get_end_pair(as_points=True)[0]))]
-    elif cls == "H.TangentVector":
-        other = w.obj("argument", H.TangentVector(other_arr))
-        calls += [("coords-projective", lambda: obj.coords("projective")),
-                  ("point-vector", lambda: (np.array(obj.point), np.array(obj.vector))),
-                  ("origin_to", lambda: (obj.origin_to(), obj.origin_to(force_oriented=False))),
-                  ("isometry_to", lambda: obj.isometry_to(other)),
-                  ("isometry_from", lambda: other.isometry_to(obj)),
-                  ("normalized", lambda: obj.normalized()),
-                  ("angle", lambda: obj.angle(other)),
-                  ("point_along", lambda: obj.point_along(0.5)),
-                  ("get_end_pair", lambda: obj.get_end_pair(as_points=True))]
-    else:
-        other = w.obj("argument", P.Polygon(other_arr))
-        calls += [("get_edges", lambda: obj.get_edges()), ("get_vertices", lambda: obj.get_vertices()),
-                  ("affine_coords", lambda: obj.affine_coords()), ("projective_coords", lambda: obj.projective_coords()),
-                  ("affine_coords-chart1", lambda: obj.affine_coords(chart_index=1)),
-                  ("in_standard_chart", lambda: obj.in_standard_chart()),
-                  ("get_edges.endpoint_affine_coords", lambda: obj.get_edges().endpoint_affine_coords()),
-                  ("in_affine_chart", lambda: obj.in_affine_chart(0))]
+    calls = build(obj, w)
     n = 0
     with warnings.catch_warnings():
         warnings.simplefilter("ignore")      # complex dtype: the library casts with a ComplexWarning; not our subject
-        for name, f in calls:
-            f()
-            n += 1
+        for qi, (name, f) in enumerate(calls):
+            # differential oracle: the same query on a FRESH object built from a copy of the current primary data
+            # must give the same answer (anything else means the answer depends on the object's past: a stale
+            # cache, a memo that survived copy()/set(), leftover state of an earlier operation)
+            fresh = klass(cls)(np.array(obj.proj_data))
+            if cx:
+                fresh = fresh.astype(np.complex128)
+            fname, ff = build(fresh, Watch())[qi]
+            want = flatten_result(ff())
+            got = flatten_result(f())
+            n += 2
             w.check(cls, name, out)
+            # (point, vector) of a tangent vector are raw representatives: queries may rescale the derived rows in place
+            # (allowed), so their numerical values are representation-dependent; Watch.check covers them projectively
+            if not out and name != "point-vector" and not same_result(got, want, name):
+                out.append(V("query-depends-on-history/%s/%s" % (name, cls),
+                             "%s on the object reached by this history differs from the same query on a fresh object with the same primary data:\n%r\nfresh\n%r" % (name, got, want)))
             if out:
                 break
     return out, n
+
+
+def flatten_result(r):
+    """Content of a query result as a list of ("rows", array) for library objects (compared projectively, row
+    by row; derived 2-row data also with the two rows swapped) and ("num", array) for plain numbers."""
+    if r is None:
+        return []
+    if hasattr(r, "proj_data"):
+        out = [("rows", np.asarray(r.proj_data))]
+        if getattr(r, "aux_data", None) is not None:
+            out.append(("rows2", np.asarray(r.aux_data)))
+        return out
+    if isinstance(r, (tuple, list)):
+        out = []
+        for x in r:
+            out += flatten_result(x)
+        return out
+    return [("num", np.asarray(r))]
+
+
+def same_result(a, b, name=""):
+    """Equality up to what recomputation from the same primary data can legitimately change: a rescaling of
+    projective rows, and the sqrt-eps class (1e-6 (1+|v|)^2) for numbers that pass through conformal
+    coordinates of ideal points.  A stale answer differs by >= 1e-2 on these alphabets."""
+    if len(a) != len(b):
+        return False
+    if "circle_parameters" in name:
+        # (centre, radius, angles) triples: the angle pair of a nearly straight / nearly vertical arc is below the
+        # sqrt-eps noise of the centre (C14 documents this), so only centre and radius are compared here
+        a = [t for i, t in enumerate(a) if i % 3 != 2]
+        b = [t for i, t in enumerate(b) if i % 3 != 2]
+    for (ka, x), (kb, y) in zip(a, b):
+        if ka != kb or x.shape != y.shape:
+            return False
+        if ka in ("rows", "rows2"):
+            e = rows_err(x, y)
+            if ka == "rows2" and e > 1e-6 and x.ndim >= 2 and x.shape[-2] == 2:
+                e = min(e, rows_err(x, y[..., ::-1, :]))
+            if not e <= 1e-6:
+                return False
+            continue
+        if x.dtype.kind in "biu" and y.dtype.kind in "biu":
+            if not np.array_equal(x, y):
+                return False
+            continue
+        if "projective" in name and x.ndim >= 1:
+            # homogeneous coordinates returned as a plain array: rows up to scale (and, for the two ideal
+            # endpoints of a segment, up to their order, which the property does not fix)
+            e = rows_err(x, y)
+            if "ideal_endpoint" in name and e > 1e-6 and x.ndim >= 2 and x.shape[-2] == 2:
+                e = pair_err_unordered(x, y)
+            if not e <= 1e-6:
+                return False
+            continue
+        if "ideal_endpoint" in name and x.ndim >= 2 and x.shape[-2] == 2:
+            # affine coordinates of an unordered pair of ideal points: try both orders, unit by unit
+            xs, ys = x.reshape(-1, 2, x.shape[-1]).astype(float), y.reshape(-1, 2, y.shape[-1]).astype(float)
+            for u, w_ in zip(xs, ys):
+                tol = 1e-6 * (1.0 + float(np.max(np.abs(w_)))) ** 2
+                if not (np.max(np.abs(u - w_)) <= tol or np.max(np.abs(u - w_[::-1])) <= tol):
+                    return False
+            continue
+        try:
+            xc, yc = x.astype(complex), y.astype(complex)
+        except (TypeError, ValueError):
+            if repr(x) != repr(y):
+                return False
+            continue
+        nan = np.isnan(xc) | np.isnan(yc) | np.isinf(xc) | np.isinf(yc)
+        if not np.array_equal(np.isnan(xc) | np.isinf(xc), np.isnan(yc) | np.isinf(yc)):
+            return False
+        d = np.abs(np.where(nan, 0, xc - yc))
+        big = float(np.max(np.abs(np.where(nan, 0, yc)))) if d.size else 0.0
+        if d.size and not np.all(d <= 1e-6 * (1.0 + big) ** 2):
+            return False
+    return True
 
 
 # ------------------------------------------------------------------------------------------------
@@ -410,7 +503,10 @@ def case_hist(hist):
         if "/ideal" not in cls:
             nextops.append(["queries"])          # queries on ideal endpoints (hyperboloid coordinates of null vectors) are C01/C14's
     raw = np.round(np.asarray(obj.proj_data).astype(complex).flatten(), 5) + (0.0 + 0.0j) if not v else None
-    key = repr((cls, tuple(mshape), cx, canon_rows(model, 5), None if raw is None else hashlib.sha1(raw.tobytes()).hexdigest()[:12]))
+    # the queries may leave hidden state behind (memoised answers), which no observable summary shows: a state
+    # reached after a query is therefore never merged with one reached without
+    queried = any(op[0] == "queries" for op in ops)
+    key = repr((cls, tuple(mshape), cx, queried, canon_rows(model, 5), None if raw is None else hashlib.sha1(raw.tobytes()).hexdigest()[:12]))
     return {"v": v, "t": t, "o": repr((cls, tuple(mshape), last, cx)), "nt": len(ops) > 0, "key": key, "ops": nextops}
 
 
